@@ -153,7 +153,7 @@ pub fn run(cx: &Ctx, space: &Space, cfg: &RefCfg) -> Tally {
                         continue;
                     }
                     // divergence: attribute or report
-                    if facts.f1 {
+                    if facts.f1 && is_vm {
                         t.known(kf::KF_F1, || {
                             jobj! {"pattern" => pattern.as_str(), "text" => text.as_str(), "pos" => pos, "expected" => outcome_json(&expected), "observed" => got.short()}
                         });
